@@ -256,9 +256,9 @@ PROPS = {
         "assumptions": ["family semantics as bit tables: bit s = set s is a member"],
     },
     "C11": {
-        "claim": "Bounded model checking (SAT) of the real TDD rules: every connective and ite is the pointwise lifting of the fixed three-valued tables of the property statement (Kleene and/or/not, Lukasiewicz imp/equiv, derived nand/nor/xor/imp_strict, the stated ite rule) over all 9 three-valued assignments of 2 variables; constants f/t/u at edge and handle level, var and the cofactor order are checked directly.",
+        "claim": "Bounded model checking (SAT) of the real TDD rules: every connective (not, and, or, xor, equiv, imp in the quick tier; nand, nor, imp_strict in the thorough tier) is the pointwise lifting of the fixed three-valued tables of the property statement (Kleene and/or/not, Lukasiewicz imp/equiv, derived nand/nor/xor/imp_strict) over all 9 three-valued assignments of 2 variables; constants f/t/u at edge and handle level, var and the cofactor order are checked directly.",
         "bounds": "<=2 pre-existing ternary nodes (thorough 3), 6 slots, 2 levels (9 assignments), symbolic capacity, one recursion step", "note": STEP_NOTE,
-        "outside": "eval_edge (slice-driven loop), more than 2 variables",
+        "outside": "ite (step harness exists; no verdict within 18 GB), eval_edge (slice-driven loop), more than 2 variables",
         "assumptions": ["tv_bin / tv_ite in harness/tdd/src/lib.rs are the tables of the property statement"],
     },
     "C12": {
